@@ -674,6 +674,8 @@ def _progress_one(rec, world, ix, first):
         want = {}
         nodes = ref.by_id(world)
         for nid in ix.starts:
+            if nid in (rec.extra.get("relabelled") or ()) or nid not in nodes:
+                continue   # (runs under another function name / was added: a transform_physical hook at work)
             n = nodes[nid]
             sc = tuple(_scope_tokens(n)) + (rec.built.fns[nid].__module__ + "." + n.get("fname", "f"),)
             want[_skey(sc)] = want.get(_skey(sc), 0) + 1
